@@ -32,6 +32,11 @@ def run(eng, ctx):
     # the bit length of a message with given repeat counts depends on what the decoder takes a repeat count to be: the derived counters
     # (population counts of the MSM masks, the 4076_201 coefficient-count polynomial at the current layer) and the group routine's use
     # of a count designator (exact count, +1 for the layer counter) are shared obligations
+    # an MSM message is decodable only if the label scans examine every mask bit the popcounts count (else the satellite / signal / cell
+    # counts and the maps disagree and decoding fails for some mask shapes): the scan schema C09-D2 is a shared obligation
+    from . import C09 as MSMMAPS
+
+    MSMMAPS.run(eng, ctx, layout_only=True)
     m = DEC.DecoderModel(eng)
     SH.derived_counts(eng, ctx, "C03.D9", labels=False)
     DEC.harmonic_counts(eng, ctx, "C03.D9b", m)
